@@ -735,7 +735,10 @@ def check_contracts(ctx, rep, rng, tier):
     table = rep.extra.setdefault("codec_contracts", {})
 
     def one(job):
-        return job, run_sandboxed("harness.c01:contract_case", job, timeout=25 if tier == "quick" else 60, mem_mb=3000)
+        out = run_sandboxed("harness.c01:contract_case", job, timeout=30, mem_mb=3000)
+        if out["status"] == "timeout":      # a loaded machine is not a hanging codec: once more, generously
+            out = run_sandboxed("harness.c01:contract_case", job, timeout=150, mem_mb=3000)
+        return job, out
     with ThreadPoolExecutor(16) as ex:
         results = list(ex.map(one, jobs))
     faults = {}
@@ -765,6 +768,7 @@ def check_contracts(ctx, rep, rng, tier):
                       {"kind": "codec-contract", **job, "outcome": outcome},
                       match_keys={"kind": "codec-contract", "codec": name, "large": job["n"] >= 32768})
     ctx["codec_faults"] = faults
+    rep.extra["codec_contract_cases"] = len(jobs)
 
 
 # ======================================================================================================
@@ -1010,14 +1014,14 @@ def batch_worker(specs):
     return out
 
 
-def run_specs(specs, per_batch, timeout_one=40):
+def run_specs(specs, per_batch, timeout_one=150):
     """every session in a child process (a codec may crash or the extraction loop may spin); a batch that dies is
     re-run one by one to find the session responsible"""
     from harness.sandbox import run_sandboxed
     batches = [specs[i:i + per_batch] for i in range(0, len(specs), per_batch)]
 
     def do(batch):
-        res = run_sandboxed("harness.c01:batch_worker", batch, timeout=timeout_one * len(batch) / 2 + 20, mem_mb=4000)
+        res = run_sandboxed("harness.c01:batch_worker", batch, timeout=40 * len(batch) + 30, mem_mb=4000)
         if res["status"] == "ok":
             return list(zip(batch, res["value"]))
         out = []
@@ -1112,6 +1116,8 @@ def check_e2e(ctx, rep, rng, tier):
     specs.append({"chain": "copy", "password": None, "header": "encoded", "target": "multivolume", "volume": 64, "block": None,
                   "limit": None, "api": "writestr", "members": [["m", {"n": 100000, "texture": "text", "seed": 1}]]})
     results = run_specs(specs, per_batch=6 if tier == "quick" else 20)
+    if ctx.get("contracts_thread") is not None:
+        ctx["contracts_thread"].join()      # classification of PPMd failures looks at the contract validation
     ok = 0
     for spec, r in results:
         nontrivial = any(m["n"] > 0 for _, m in spec["members"])
@@ -1164,13 +1170,31 @@ def run(ctx):
                 rep.violation("%s raised %s: %s" % (part.__name__, type(e).__name__, e),
                               {"kind": "exception", "part": part.__name__, "trace": traceback.format_exc()[-1500:]},
                               concrete=False, match_keys={"kind": "exception"})
-    for part in (check_contracts, check_e2e):
+    # the contract validation runs beside the sessions (both are pools of sandboxed children); the sessions are
+    # classified after both have finished
+    import threading
+    rng_c = random.Random(rng.getrandbits(64))
+    crep = {"exc": None}
+
+    def contracts():
         try:
-            part(ctx, rep, rng, tier)
+            check_contracts(ctx, rep, rng_c, tier)
         except Exception as e:  # noqa
-            rep.violation("%s raised %s: %s" % (part.__name__, type(e).__name__, e),
-                          {"kind": "exception", "part": part.__name__, "trace": traceback.format_exc()[-1500:]},
-                          concrete=False, match_keys={"kind": "exception"})
+            crep["exc"] = (e, traceback.format_exc()[-1500:])
+    th = threading.Thread(target=contracts)
+    th.start()
+    ctx["contracts_thread"] = th
+    try:
+        check_e2e(ctx, rep, rng, tier)
+    except Exception as e:  # noqa
+        rep.violation("check_e2e raised %s: %s" % (type(e).__name__, e),
+                      {"kind": "exception", "part": "check_e2e", "trace": traceback.format_exc()[-1500:]},
+                      concrete=False, match_keys={"kind": "exception"})
+    th.join()
+    if crep["exc"]:
+        rep.violation("check_contracts raised %s: %s" % (type(crep["exc"][0]).__name__, crep["exc"][0]),
+                      {"kind": "exception", "part": "check_contracts", "trace": crep["exc"][1]},
+                      concrete=False, match_keys={"kind": "exception"})
 
 
 def replay(d):
